@@ -55,7 +55,7 @@ func loadKnownFindings() []knownFinding {
 // packagesForProperty scans contract files (repo copy first, mirror otherwise) for blocks tagged with the property.
 func packagesForProperty(repo, mirror, id string) []string {
 	seen := map[string]bool{}
-	re := regexp.MustCompile(`(?m)^//@\s+(prop|lemma|axiom|analysis|gate|checked|effect|protect|waitgroup|hashed|unguarded|flow|keyed|guarded|paired|decides)\b.*\b` + id + `\b`)
+	re := regexp.MustCompile(`(?m)^//@\s+(prop|lemma|axiom|analysis|gate|checked|effect|protect|waitgroup|hashed|unguarded|flow|keyed|guarded|paired|decides|consulted)\b.*\b` + id + `\b`)
 	scan := func(root string, strip string) {
 		filepath.Walk(root, func(path string, info os.FileInfo, err error) error {
 			if err != nil {
@@ -516,7 +516,7 @@ type analysisFn func(p *Program, id string) ([]*Gen, []string)
 var analyses = map[string][]analysisFn{}
 
 func analysesFor(id string) []analysisFn {
-	return append([]analysisFn{lemmaAnalysis, runSiteRules, runEffectRules, runProtectRules, runWaitGroupRules, runHashedRules, runUnguardedRules, runKeyedRules, runGuardedRules, runPairedRules, runDecidesRules}, analyses[id]...)
+	return append([]analysisFn{lemmaAnalysis, runSiteRules, runEffectRules, runProtectRules, runWaitGroupRules, runHashedRules, runUnguardedRules, runKeyedRules, runGuardedRules, runPairedRules, runDecidesRules, runConsultedRules}, analyses[id]...)
 }
 
 // lemmaAnalysis proves `//@ lemma name C07: expr` blocks as stand-alone queries.
